@@ -296,8 +296,21 @@ func init() {
 			if !lo.IsConst() || !hi.IsConst() || lo.C > hi.C {
 				ex.unsupported("vx.Range needs concrete lo <= hi")
 			}
-			v := ex.NewInput(argStr(ex, args[0]), 64)
-			ex.assume(ex.ts.And(ex.ts.Cmp(OpULe, lo, v), ex.ts.Cmp(OpULe, v, hi)))
+			// the variable is only as wide as the range needs (zero-extended): products
+			// and comparisons built on it stay small for the solver
+			nb := 1
+			for nb < 64 && hi.C>>uint(nb) != 0 {
+				nb++
+			}
+			v := ex.ts.ZExt(ex.NewInput(argStr(ex, args[0]), nb), 64)
+			c := True
+			if lo.C > 0 {
+				c = ex.ts.Cmp(OpULe, lo, v)
+			}
+			if hi.C != (uint64(1)<<uint(nb))-1 {
+				c = ex.ts.And(c, ex.ts.Cmp(OpULe, v, hi))
+			}
+			ex.assume(c)
 			return v
 		})
 		e.reg("runtime/debug.ReadBuildInfo", func(ex *Exec, fr *frame, args []Value) Value {
